@@ -298,6 +298,7 @@ func c18Run(w *W) {
 					return
 				}
 			}
+			c18Rejoin(w, mn, addr, kind, obj)
 			return
 		}
 		// a peer is attached: block a call, then the last peer leaves
@@ -357,6 +358,48 @@ func c18Run(w *W) {
 			return
 		}
 		w.Probe("fail-no-peers-on-leave")
+		c18Rejoin(w, mn, addr, kind, obj)
+	}
+}
+
+// c18Rejoin: peers come back and leave again: the no-peers condition follows
+// the peer set every time, it does not latch.
+func c18Rejoin(w *W, mn *MsgNet, addr, kind string, obj ioObj) {
+	{
+		if !canSend(kind) {
+			return
+		}
+		mn.Endpoint(addr).SendCap = 0
+		for round := 0; round < 2 && !w.Failed(); round++ {
+			p2 := mn.Connect(addr)
+			w.Settle()
+			if p2 == nil {
+				return
+			}
+			for i := 0; i < 4; i++ {
+				sc := w.Do(fmt.Sprintf("Send(peer back, round %d)#%d", round, i), func() (interface{}, error) { return nil, obj.Send([]byte("y")) })
+				sc.Wait(10 * time.Millisecond)
+				w.Settle()
+				if !sc.Returned() {
+					break // a full queue may block it (no deadline set): not judged here
+				}
+				if sc.Err == mangos.ErrNoPeers {
+					w.Failf("C18/no-peers-with-peer-attached", "%s: FailNoPeers set; the last peer left and a new peer attached (round %d); Send still fails with %v", kind, round, errName(sc.Err))
+					return
+				}
+			}
+			w.Op("peer leaves again (round %d)", round)
+			w.Fault("close")
+			p2.ClosePeer()
+			w.Settle()
+			sc := w.Do("Send(no peers again)", func() (interface{}, error) { return nil, obj.Send([]byte("z")) })
+			w.Settle()
+			if !sc.Returned() || sc.Err != mangos.ErrNoPeers {
+				w.Failf("C18/fail-no-peers-send", "%s: FailNoPeers set, the peer left again (round %d), Send returned=%v err=%v", kind, round, sc.Returned(), errName(sc.Err))
+				return
+			}
+			w.Probe("fail-no-peers-follows-peer-set")
+		}
 	}
 }
 
